@@ -240,3 +240,12 @@ func (w *Worker) Stop() {
 }
 
 var _ = bytes.MinRead
+
+// Kill terminates the child with SIGKILL (crash injection) and waits for it.
+func (w *Worker) Kill() {
+	if w.cmd != nil {
+		w.cmd.Process.Kill()
+		w.cmd.Wait()
+		w.cmd = nil
+	}
+}
